@@ -6,6 +6,7 @@ import GqlProofs.ExecExample
 import GqlProofs.ExecErr
 import GqlProofs.ExecRoot
 import GqlProofs.ExecLog
+import GqlProofs.ExecState
 /-! # C04 — Responses are well-formed for schema and query whatever resolvers return
 
 Property theorems only. The theorems are about `GqlModel.Exec.execute` (the execution algorithm as this library
@@ -239,6 +240,30 @@ theorem data_none_has_nonnull_root_cause (s : Schema) (doc : Document) (opName :
   · obtain ⟨k, nodes, node, fd, q, d, h1, h2, h3, h4, h5, h6⟩ := execGroups_fail_cause c fuel _ _ _ _ _ _ _ _ hr
     refine ⟨k, nodes, node, fd, q, d, h1, h2, h3, h4, ?_, by simpa using h6⟩
     rw [herrs, List.getLast?_reverse]; exact h5
+
+/-! ## Siblings -/
+
+/-- The state (errors, log) is write-only: what the four functions return and what they append does not depend on the
+state they are given — so nothing a field records (in particular no failure) can influence a later field. -/
+theorem result_independent_of_recorded_state (c : Ctx) (fuel : Nat) :
+    (∀ dfr rt src path groups acc, ∃ r d, ∀ st, execGroups c fuel dfr rt src path groups acc st = (r, St.app d st)) ∧
+    (∀ dfr rt src p fd nodes, ∃ r d, ∀ st, execField c fuel dfr rt src p fd nodes st = (r, St.app d st)) ∧
+    (∀ dfr t rt fname nodes p v, ∃ r d, ∀ st, complete c fuel dfr t rt fname nodes p v st = (r, St.app d st)) ∧
+    (∀ dfr item rt fname nodes p xs i acc, ∃ r d, ∀ st,
+      completeItems c fuel dfr item rt fname nodes p xs i acc st = (r, St.app d st)) :=
+  ⟨(stP c fuel).groups, (stP c fuel).field, (stP c fuel).complete, (stP c fuel).items⟩
+
+/-- No failure in one field alters the value of a sibling: in a selection set that yields an object, the value under
+each response key is exactly what executing THAT field on its own yields (from any state, i.e. whatever the siblings
+did, failed at or recorded). The only way a failure reaches a sibling is by propagation, which nulls the whole object
+(the selection set then yields no object at all). -/
+theorem sibling_unaffected_by_failures (c : Ctx) (fuel : Nat) (dfr : Bool) (rt : String) (src : GoVal) (path : Path)
+    (groups : Groups) (acc : List (String × JVal)) (st st' : St) (fs : List (String × JVal))
+    (h : execGroups c fuel dfr rt src path groups acc st = (.ok fs, st'))
+    (k : String) (nodes : List FieldNode) (node : FieldNode) (fd : FieldDefS)
+    (hm : (k, nodes) ∈ groups) (hnode : nodes.head? = some node) (hfd : fieldDef? c.schema rt node.name = some fd) :
+    ∃ v, (k, v) ∈ fs ∧ ∀ st0, (execField c fuel dfr rt src (path ++ [.key k]) fd nodes st0).1 = .ok v :=
+  execGroups_field_values c fuel dfr rt src path groups acc st fs st' h k nodes node fd hm hnode hfd
 
 /-! ## Non-vacuity: a concrete request (GqlProofs/ExecExample.lean) -/
 
